@@ -393,7 +393,8 @@ def c19e(ck, prog):
         if len(sw) != 1:
             raise AnchorLost("the result of %s is not switched on once" % test)
         true_tb = [tb for tb, lab in f.succ(sw[0]) if lab != 0]
-        sink_bbs = tuple(c.bb for c in f.calls() if re.search(sinks, c.callee or "") and c.bb in body and f.dominates(sw[0], c.bb))
+        names = ("push",) if what == "file" else ("append", "extend", "extend_from_slice", "push", "push_back")
+        sink_bbs = tuple(c.bb for c in f.calls() if (re.search(sinks, c.callee or "") or (c.name in names and re.search(r"Vec|Extend", (c.callee or "") + (c.decl or "")))) and c.bb in body and f.dominates(sw[0], c.bb))
         n += 1
         ok = bool(sink_bbs) and bool(true_tb) and header not in f.reachable_from(true_tb[0], avoid=sink_bbs)
         ck.ob(R, "walk:every-%s" % what, ok, f.loc(t.sp), "" if ok else "in Dir::new an entry found to be a %s can be passed over: the walk goes on to the next entry on a path that neither %s nor fails -- files under the directory would answer 404" % (what, "records it" if what == "file" else "queues its entries"),
